@@ -3,7 +3,7 @@
 import random
 
 from .. import boot
-from ..result import Result, h64
+from ..result import Result, h64, keep_going
 
 dbsim = None  # imported after boot.init()
 
@@ -303,7 +303,7 @@ def run_shard(spec):
     sim = get_sim()
     rng = random.Random(spec['seed'])
     n = 0
-    while res.elapsed() < spec['budget'] or n < 6:
+    while keep_going(res, spec) or n < 6:
         hseed = rng.getrandbits(48)
         bad, info = run_history(sim, hseed, res, thorough=spec['tier'] == 'thorough')
         n += 1
